@@ -227,6 +227,16 @@ Proof.
   rewrite (bind_ok _ _ _ _ _ (find_type_ok _ _ _ Ha)). destruct t; try discriminate; apply notok_fail.
 Qed.
 
+Lemma ShapesDecl_var_ty_inv kinds v s t s' : var_ty kinds v s = Ok (t, s') -> s' = s /\ t = N.succ_pos v.
+Proof. unfold var_ty. destruct (PositiveMap.find _ kinds); [|discriminate]. intros [= <- <-]. auto. Qed.
+
+Lemma bind_inv_pres0 {A B} (m : M A) (k : A -> M B) s b s'' :
+  pres m -> wf s -> bind m k s = Ok (b, s'') ->
+  exists a s', m s = Ok (a, s') /\ wf s' /\ ext s s' /\ k a s' = Ok (b, s'').
+Proof.
+  intros P W H. apply bind_inv in H as (a & s' & H1 & H2). destruct (P _ _ _ W H1) as [W' E']. eauto 8.
+Qed.
+
 (* ------------------------------------------------------------------ the mismatch kinds *)
 
 Section Kinds.
@@ -644,6 +654,94 @@ Section Kinds.
       apply bind_notok_l. apply bind_notok_l.
       apply (unify_rejects g fsp rt x s2 (base_head b) tv W2); try assumption; now apply rigid_known.
   Qed.
+
+  (* ---- compound assignment with the same variable on both sides: x := true; x += x
+     (accepted before d6dfc5c: sub_unify returns early when both sides are one class, so the constraint that
+     was just added was never looked at) *)
+  Lemma read_var_eval v rsp kd f ctx s t :
+    PositiveMap.find (N.succ_pos v) kinds = Some kd -> (inside_pure ctx && negb (immutable kd)) = false ->
+    head s (N.succ_pos v) = Some t -> rigid t = true ->
+    r_expr (afix (S f)) (ERead v rsp) ctx s = Ok ((None, N.succ_pos v), s).
+  Proof.
+    intros Hk Hp Hh Rt. cbn [Tc.afix astep r_expr]. unfold expr_body. cbv beta iota.
+    unfold var_kind, var_ty. rewrite Hk.
+    rewrite (bind_ok _ _ s (None, N.succ_pos v) s).
+    - cbv beta iota zeta. rewrite (bind_ok _ _ _ _ _ (find_type_ok _ _ _ Hh)). destruct t; try discriminate; reflexivity.
+    - rewrite (bind_ok (ret kd) _ s kd s eq_refl). rewrite Hp. reflexivity.
+  Qed.
+
+  Lemma rej_compound_self name v dk tsp lit dsp op k r1 r2 asp bsp tl f ctx s :
+    wf s -> lit_type lit = Some tl -> rigid tl = true ->
+    (op = Add /\ k = AAdd) \/ (op = Sub /\ k = ASub) \/ (op = Mul /\ k = AMul) ->
+    arith_base_ok k tl tl = false ->
+    notok (r_stmt (afix f) (SBlock [SDefinition name v dk (TImplied tsp) lit dsp;
+                                    SAssignment op (ERead v r1) (ERead v r2) asp] bsp) ctx s).
+  Proof.
+    intros W Ll Rl Hop Bk. destruct f as [|f]; [apply notok_fuel|].
+    cbn [Tc.afix astep r_stmt]. unfold stmt_body. apply bind_notok_l. unfold expression_block. apply bind_notok_l.
+    cbn [foldM].
+    (* the definition *)
+    apply bind_cases; [pose proof (PA f); prs|assumption|]. intros acc1 s1 H1 W1 E1.
+    apply bind_inv in H1 as (sr & s1' & Hd & Hu).
+    assert (s1' = s1) by (destruct sr; cbn in Hu; injection Hu as _ <-; reflexivity). subst s1'.
+    destruct f as [|f]; [discriminate|]. cbn [Tc.afix astep r_stmt] in Hd. unfold stmt_body, definition in Hd.
+    destruct (inside_pure ctx && negb (immutable dk)) eqn:Hp; [discriminate|].
+    apply bind_inv in Hd as (vt & s2 & Hv & Hd). pose proof Hv as Hv'. apply ShapesDecl_var_ty_inv in Hv' as [-> ->].
+    assert (Hm : forall (k1 : list (string * N * span * ty) -> ty -> bool -> M unit),
+               match lit with EFunction _ params rty _ pure _ => k1 params rty pure | _ => ret tt end = ret tt)
+      by (intros; destruct lit; try discriminate Ll; reflexivity).
+    rewrite Hm in Hd. rewrite (bind_ok (ret tt) _ s tt s eq_refl) in Hd.
+    apply bind_inv_pres0 in Hd as (dt & s3 & _ & W3 & E3 & Hd); [|eapply pres_resolve_type, PA|assumption].
+    apply bind_inv_pres0 in Hd as (u4 & s4 & _ & W4 & E4 & Hd); [|apply pres_add_constraint|assumption].
+    apply bind_inv_pres0 in Hd as (u5 & s5 & _ & W5 & E5 & Hd); [|unfold unify; apply pres_bind; [apply (gp_unify G PG)|intros; apply pres_ret]|assumption].
+    apply bind_inv in Hd as ([vr vl] & s6 & Hl & Hd).
+    destruct (lit_spec _ _ _ lit _ _ _ _ _ Ll Rl W5 Hl) as (W6 & E6 & Hvl). cbn [snd] in Hvl.
+    apply bind_inv in Hd as (u7 & s7 & H7 & Hd). injection Hd as _ Es. subst s7.
+    destruct (unify_ok_heads _ _ _ _ _ _ _ W6 H7) as (W7 & E7 & Heq).
+    assert (Hx : head s1 (N.succ_pos v) = Some tl).
+    { rewrite Heq. eapply head_keep; eassumption. }
+    (* the assignment *)
+    apply bind_notok_l. apply bind_notok_l.
+    cbn [Tc.afix astep r_stmt]. unfold stmt_body.
+    unfold var_ty in Hv. destruct (PositiveMap.find (N.succ_pos v) kinds) as [kd|] eqn:Hk; [|discriminate].
+    assert (Hca : can_assign kinds asp (ERead v r1) s1 = (if immutable kd then fail KAssignability r1 s1 else Ok (tt, s1))).
+    { unfold can_assign, var_kind. rewrite Hk. unfold bind, ret. destruct (immutable kd); reflexivity. }
+    destruct (immutable kd) eqn:Im; [apply bind_notok_l; rewrite Hca; apply notok_fail|].
+    rewrite (bind_ok _ _ _ _ _ Hca).
+    destruct (inside_pure ctx) eqn:Ip; [apply notok_fail|].
+    destruct f as [|f]; [apply bind_notok_l, notok_fuel|].
+    assert (Hp' : (inside_pure ctx && negb (immutable kd)) = false) by (rewrite Ip; reflexivity).
+    rewrite (bind_ok _ _ _ _ _ (read_var_eval v r2 kd f ctx s1 tl Hk Hp' Hx Rl)). cbv beta iota zeta.
+    rewrite (bind_ok _ _ _ _ _ (read_var_eval v r1 kd f ctx s1 tl Hk Hp' Hx Rl)). cbv beta iota zeta.
+    set (x := N.succ_pos v) in *.
+    assert (Core : forall con, (forall g' s', wf s' -> head s' x = Some tl -> notok (check_one (gfix g') asp x (con x) s')) ->
+              notok ((add_constraint x (con x);;; add_constraint x (con x));;;
+                     (unify G asp x x;;; g_check G asp x);;; unify_option G asp None None) s1).
+    { intros con Hc. apply bind_cases; [prs|assumption|]. intros u8 s8 H8 W8 E8.
+      apply bind_inv in H8 as (u9 & s9 & H9 & H8).
+      destruct (add_constraint_spec _ _ _ _ _ W1 H9) as (W9 & E9 & Hd9 & _ & C9 & _).
+      destruct (add_constraint_spec _ _ _ _ _ W9 H8) as (_ & _ & Hd8 & _ & C8 & _).
+      apply bind_notok_l.
+      apply bind_cases; [unfold unify; apply pres_bind; [apply (gp_unify G PG)|intros; apply pres_ret]|assumption|].
+      intros u10 s10 H10 W10 E10.
+      (* unify x x changes nothing: both sides are one class *)
+      assert (s10 = s8).
+      { unfold unify in H10. apply bind_inv in H10 as ([r0 sn] & s11 & H11 & H10). injection H10 as _ <-.
+        destruct g as [|g0]; [discriminate|]. cbn [gfix gstep g_unify] in H11. unfold unify_body in H11.
+        apply bind_inv in H11 as (ra & s12 & Ha & H11). apply find_inv in Ha as [-> Ha].
+        apply bind_inv in H11 as (rb & s13 & Hb & H11). apply find_inv in Hb as [-> Hb].
+        assert (ra = rb) by congruence. subst rb. rewrite Pos.eqb_refl in H11. cbn [orb] in H11. now injection H11. }
+      subst s10.
+      apply (check_rejects g asp x (con x) s8 W8 C8).
+      intros g' s' W' E'. apply Hc; [assumption|].
+      eapply head_keep; [exact E'| |exact Rl]. rewrite Hd8, Hd9. exact Hx. }
+    assert (Ar : forall g' s', wf s' -> head s' x = Some tl -> notok (g_arith (gfix g') k asp x x s'))
+      by (intros; eapply arith_rejects; eassumption).
+    destruct Hop as [[-> ->]|[[-> ->]|[-> ->]]].
+    - apply (Core CAdd). intros. cbn [check_one]. now apply Ar.
+    - apply (Core CSub). intros. cbn [check_one]. now apply Ar.
+    - apply (Core CMul). intros. cbn [check_one]. now apply Ar.
+  Qed.
 End Kinds.
 
 (* ------------------------------------------------------------------ the kinds as predicates on the filler *)
@@ -698,7 +796,13 @@ Inductive bad_stmt : stmt -> Prop :=
 (* x: int = "a" *)
 | BadVarType name var kind b tsp value sp tv :
     lit_type value = Some tv -> rigid tv = true -> rigid (base_head b) = true ->
-    same_shape (base_head b) tv = false -> bad_stmt (SDefinition name var kind (TResolved b tsp) value sp).
+    same_shape (base_head b) tv = false -> bad_stmt (SDefinition name var kind (TResolved b tsp) value sp)
+(* x := true ; x += x  (a compound assignment on a type without that operator, the same variable on both sides) *)
+| BadCompoundSelf name v dk tsp lit dsp op k r1 r2 asp bsp tl :
+    lit_type lit = Some tl -> rigid tl = true ->
+    (op = Add /\ k = AAdd) \/ (op = Sub /\ k = ASub) \/ (op = Mul /\ k = AMul) ->
+    arith_base_ok k tl tl = false ->
+    bad_stmt (SBlock [SDefinition name v dk (TImplied tsp) lit dsp; SAssignment op (ERead v r1) (ERead v r2) asp] bsp).
 
 Theorem bad_expr_rejected e : bad_expr e ->
   forall kinds g f ctx s, wf s -> notok (r_expr (afix kinds (gfix g) f) e ctx s).
@@ -725,6 +829,7 @@ Proof.
     apply bind_notok_l. now apply bad_expr_rejected.
   - eapply rej_loop_cond; eassumption.
   - eapply rej_var_type; eassumption.
+  - eapply rej_compound_self; eassumption.
 Qed.
 
 Theorem bad_stmt_rejected_top st : bad_stmt st ->
